@@ -70,7 +70,7 @@ mixed do_op (string s, mixed hookarg) {
     VL ("r rd " + my_oid () + " " + OID (get_keep ()));
     break;
   case "err":
-    error ("*boom\n");
+    error ("boom\n");
     break;
   case "mvarg":
     if (objectp (hookarg)) {
